@@ -37,6 +37,7 @@ type SysObs struct {
 	// probe (after the last operation only): one inbound request after an idle gap
 	Probed, ProbeBlocked bool
 	ProbeBy              *system.Rule
+	ClearFault           string // wind-up through system.ClearRules left rules in force
 }
 
 func GenSys(r *rng.R, id int) SysCase {
@@ -136,6 +137,15 @@ func RunSys(c SysCase) []SysObs {
 			e.Exit()
 		}
 		Clk.AddMs(30000)
+	}
+	if len(out) > 0 {
+		last := &out[len(out)-1]
+		system.LoadRules([]*system.Rule{{ID: "9", MetricType: system.Load, TriggerCount: 100}})
+		if err := system.ClearRules(); err != nil {
+			last.ClearFault = "ClearRules returned an error: " + err.Error()
+		} else if n := len(system.GetRules()); n != 0 {
+			last.ClearFault = fmt.Sprintf("after ClearRules GetRules still reports %d rules", n)
+		}
 	}
 	system.LoadRules([]*system.Rule{})
 	return out
@@ -271,6 +281,10 @@ func MonitorSys(c SysCase, obs []SysObs, rep *emit.Report) bool {
 			return false
 		}
 	}
+	if n := len(obs); n > 0 && obs[n-1].ClearFault != "" {
+		fail("C13_scope", "clear-did-not-empty-its-scope", obs[n-1].ClearFault)
+		return false
+	}
 	// probe: with no inbound traffic in any window, the request is rejected iff some valid rule of the
 	// latest load on inbound QPS / concurrency / average RT has a trigger count that 0 is not below,
 	// and then by such a rule (the module checks its rules in map order); load and CPU usage rules
@@ -324,6 +338,7 @@ type OutObs struct {
 	Per                    []*outlier.Rule // per resource 1..NRes
 	Consistent             bool
 	NAll                   int
+	ClearFault             string // wind-up through ClearRuleOfResource / ClearRules left rules in force
 }
 
 func cloneOut(t *outlier.Rule) *outlier.Rule {
@@ -445,6 +460,41 @@ func RunOut(c OutCase) []OutObs {
 		}
 		ob.NAll = len(outlier.GetRules())
 		out = append(out, ob)
+	}
+	if len(out) > 0 {
+		last := &out[len(out)-1]
+		func() {
+			defer func() {
+				if x := recover(); x != nil {
+					last.ClearFault = fmt.Sprint("clear panicked: ", x)
+				}
+			}()
+			inForce := func(i int) bool { _, ok, _ := outlier.VerifRuleOfResource(c.Res[i]); return ok }
+			for i := 1; i <= c.NRes; i++ {
+				before := make([]bool, c.NRes+1)
+				for j := 1; j <= c.NRes; j++ {
+					before[j] = inForce(j)
+				}
+				if err := outlier.ClearRuleOfResource(c.Res[i]); err != nil && last.ClearFault == "" {
+					last.ClearFault = fmt.Sprintf("ClearRuleOfResource(res %d) returned an error: %v", i, err)
+				}
+				for j := 1; j <= c.NRes; j++ {
+					if j <= i && inForce(j) && last.ClearFault == "" {
+						last.ClearFault = fmt.Sprintf("after ClearRuleOfResource(res %d) resource %d still has a rule", i, j)
+					}
+					if j > i && inForce(j) != before[j] && last.ClearFault == "" {
+						last.ClearFault = fmt.Sprintf("ClearRuleOfResource(res %d) changed resource %d", i, j)
+					}
+				}
+			}
+			outlier.LoadRuleOfResource(c.Res[1], &outlier.Rule{Rule: &cb.Rule{Resource: c.Res[1], Strategy: cb.ErrorCount, RetryTimeoutMs: 3000, MinRequestAmount: 1, StatIntervalMs: 1000, Threshold: 1}, MaxEjectionPercent: 0.5})
+			if err := outlier.ClearRules(); err != nil && last.ClearFault == "" {
+				last.ClearFault = "ClearRules returned an error: " + err.Error()
+			}
+			if n := len(outlier.GetRules()); n != 0 && last.ClearFault == "" {
+				last.ClearFault = fmt.Sprintf("after ClearRules GetRules still reports %d rules", n)
+			}
+		}()
 	}
 	outlier.LoadRules(nil)
 	return out
@@ -593,6 +643,10 @@ func MonitorOut(c OutCase, obs []OutObs, rep *emit.Report) bool {
 			fail("C13_getters_eq_enforced", "getrules-differs-from-enforced", fmt.Sprintf("op %d: GetRules reports %d rules, %d in force", k, ob.NAll, n))
 			return false
 		}
+	}
+	if n := len(obs); n > 0 && obs[n-1].ClearFault != "" {
+		fail("C13_scope", "clear-did-not-empty-its-scope", obs[n-1].ClearFault)
+		return false
 	}
 	return sawInvalid && sawUnchanged
 }
